@@ -88,7 +88,7 @@ def run(v) -> None:
     traces = []
     depths_q = [1, 8, 32]
     depths = depths_q if quick else [1, 2, 4, 8, 16, 32]
-    maxn = 6 if quick else 8
+    maxn = 6 if quick else 9
     combo = 0
     sets = {}
 
@@ -124,7 +124,7 @@ def run(v) -> None:
                         mode = "identity" if combo % 2 else "random"
                         one(n, c, nbits, min(k, n), mode, gulp, start, nsamps, skip, "exhaustive")
     # random larger plans
-    for _ in range(300 if quick else 5000):
+    for _ in range(300 if quick else 20000):
         n = rng.randrange(8, 65)
         nbits = rng.choice([1, 2, 4, 8, 16, 32])
         c = rng.choice(DEPTH_CH[nbits])
